@@ -1,0 +1,17 @@
+//go:build verif
+
+package server
+
+import "github.com/janelia-flyem/dvid/datastore"
+
+// VerifHandleCommand runs the real RPC command switch without a gorpc socket.
+// Only compiled with the "verif" build tag (verification harness).
+func VerifHandleCommand(cmd *datastore.Request) (*datastore.Response, error) {
+	return handleCommand(cmd)
+}
+
+// VerifAwaitShutdown receives the signal Shutdown() sends when it has finished,
+// standing in for Serve(), which the verification harness never calls.
+func VerifAwaitShutdown() {
+	<-shutdownCh
+}
